@@ -62,7 +62,17 @@ THEOREMS_D = ["AurelVerif.C11." + t for t in (
     "multi_thorn_rest_differs_raises", "two_thorns_checkpoint_witness", "two_thorns_chunked_checkpoint_raises",
     "combined_name_next_to_plain_name_misaligns", "two_thorns_group_or_var_witness",
     "second_thorn_appearing_later_raises")]
-LEAN_FILES = ["AurelVerif/Props/C11d.lean", "AurelVerif/Model/MultiThorn.lean",
+MODULE_E = "AurelVerif.Props.C11e"
+THEOREMS_E = ["AurelVerif.C11." + t for t in (
+    "literal_file_loop_is_readFile", "literal_model_specialises", "old_model_read_transfers",
+    "checkpoint_table_exact_literal", "checkpoint_pipeline_exact_literal", "group_or_var_is_chunk_read",
+    "group_or_var_exact", "multi_thorn_iteration_read", "multi_thorn_table_read", "multi_thorn_table_exact",
+    "multi_thorn_components_raise", "multi_thorn_components_call_raises", "fuel_never_exhausted_checkpoints",
+    "fuel_never_exhausted_group_or_var", "none_means_raise", "instrumented_loop_is_the_model",
+    "more_fuel_same_result", "loop_without_end_witness", "mtGoodIt")]
+LEAN_FILES = ["AurelVerif/Props/C11e.lean", "AurelVerif/Lemmas/C11MultiThornEq.lean",
+              "AurelVerif/Lemmas/C11MultiThornFuel.lean", "AurelVerif/Lemmas/C11GroupOrVar.lean",
+              "AurelVerif/Props/C11d.lean", "AurelVerif/Model/MultiThorn.lean",
               "AurelVerif/Lemmas/C11Names.lean", "AurelVerif/Lemmas/C11MultiThorn.lean",
               "AurelVerif/Props/C11.lean", "AurelVerif/Lemmas/Chunks.lean", "AurelVerif/Model/Chunks.lean",
               "AurelVerif/Gen/VarMaps.lean", "Driver/C11.lean",
@@ -1479,9 +1489,14 @@ def run(ctx):
                         "one chunk per process and level; every level has the same number of chunks in the "
                         "file-per-process layout (what Carpet writes)",
                         "the same variable name in two thorns of one file: modelled literally (Model/MultiThorn.lean, "
-                        "tied by the ckptm / gvar correspondences); the general read-back theorem covers one "
-                        "component per file (multi_thorn_file_read); the old model Model/Checkpoint.lean (C11c "
-                        "theorems) returns `none` there",
+                        "tied by the ckptm / gvar correspondences); Model/Checkpoint.lean and the chunk read of "
+                        "Model/Chunks.lean are proven to be its specialisation to the ordinary case (Props/C11e), the "
+                        "C11c theorems hold for the literal model; the multi-thorn read-back theorem "
+                        "(multi_thorn_table_exact) needs the rewrite to happen in the first file of the first "
+                        "requested iteration (one component per file) - a thorn appearing later misaligns or raises",
+                        "termination of the growing-list loop is proven for files whose dataset names are distinct and "
+                        "whose variable names are no THORN::var names (NamesOK: every Cactus file); for other HDF5 "
+                        "files the real loop need not end (loop_without_end_witness)",
                         "zero extents: Carpet never writes a component with a zero interior extent (to our knowledge: a "
                         "process always owns at least one interior point per direction); the code "
                         "produces empty slices only for cctk_nghostzones = 0 (the stated [0:-0] boundary, all "
@@ -1502,9 +1517,10 @@ def run(ctx):
         ctx.prove(MODULE_B, THEOREMS_B)
         ctx.prove(MODULE_C, THEOREMS_C)
         ctx.prove(MODULE_D, THEOREMS_D)
+        ctx.prove(MODULE_E, THEOREMS_E)
         ctx.forbidden_scan(LEAN_FILES)
         if ctx.tier == "thorough":
-            ctx.leanchecker([MODULE, MODULE_B, MODULE_C, MODULE_D])
+            ctx.leanchecker([MODULE, MODULE_B, MODULE_C, MODULE_D, MODULE_E])
     tmp = tempfile.mkdtemp(prefix="c11_")
     found = 0
     try:
@@ -1698,6 +1714,26 @@ MANIFEST = {
             "witnesses: both thorns returned under combined names, one file with several components raises, a "
             "combined name next to the plain name doubles the column (misaligned), a second thorn appearing at a "
             "later iteration raises. "
+            "ONE IMPLEMENTATION, OLD MODELS = ITS SPECIALISATION (Props/C11e): in the ordinary case (no requested name "
+            "answered by two datasets of one iteration/level/component) the literal model readCheckpointsM equals "
+            "readCheckpoints of Model/Checkpoint.lean, raising or not (literal_model_specialises); whatever the old model "
+            "reads the literal model reads with the same result (old_model_read_transfers), so checkpoint_table_exact and "
+            "checkpoint_pipeline_exact hold for the literal model (..._literal); the literal model readGroupOrVar of "
+            "read_ET_group_or_var is, in the three regular layouts, fixij(joinChunks(toDict(selected blocks))) - the chunk "
+            "read of Model/Chunks.lean (group_or_var_is_chunk_read) - hence well-formed 3D output over all files, "
+            "components, iterations and variables is read back exactly by the literal model (group_or_var_exact). "
+            "MULTI-THORN OVER FILES AND ITERATIONS: when the first file of the first requested iteration holds one "
+            "component (no c=, or one file per process) and answers a name by several thorns, the request is rewritten "
+            "there and everything after it (the other process files, the joins, every later iteration in whichever "
+            "layout) is an ordinary read of the rewritten list: every thorn's variable is read back exactly in a column "
+            "THORN::var, one entry per iteration (multi_thorn_iteration_read, multi_thorn_table_read, "
+            "multi_thorn_table_exact). Where it fails: ONE file with several components c=0.. and a name shared by two "
+            "thorns ALWAYS raises - the second look-up runs over all components (multi_thorn_components_raise, "
+            "..._call_raises: theorems about the literal model). "
+            "TERMINATION: the index loop over the growing request list never exhausts the model's fuel for files with "
+            "distinct dataset names whose variable names are no THORN::var names (fuel_never_exhausted_checkpoints / "
+            "_group_or_var; list length <= L0 + L0*R), so `none` of the model always means that the code raises "
+            "(none_means_raise, more_fuel_same_result); the hypothesis is needed (loop_without_end_witness). "
             "All models are tied to the code by exact integer correspondence (join_chunks, fixij, "
             "read_ET_group_or_var and read_ET_checkpoints through real HDF5 files, restart choice of read_data); the "
             "whole read_data pipeline, with and without usecheckpoints, with duplicate names and with restarts that "
@@ -1711,9 +1747,13 @@ MANIFEST = {
             "checkpoint files shadows the 3D data of earlier restarts (IndexError). The multi-thorn / mixed-count "
             "model is validated on 120+160 / 1200+1500 checkpoint file sets and 150 / 1500 read_ET_group_or_var "
             "file sets per run (2-3 thorns with a common variable name, substring thorn names, combined names in the "
-            "request, layouts changing between iterations). NOT claimed: a general read-back theorem for the "
-            "multi-thorn branch over several files / components (only one component per file; the rest is "
-            "correspondence + witnesses). KNOWN FINDINGS of the multi-thorn branch, rebuilt and replayed on the real "
+            "request, layouts changing between iterations). NOT claimed for the multi-thorn branch: a rewrite that "
+            "happens AFTER the first file of the first requested iteration (a second thorn appearing later: misaligned "
+            "columns or KeyError, witnesses in Props/C11d); a read-back theorem for read_ET_group_or_var with two thorns "
+            "over several files (witnesses + correspondence only); the degenerate plans of read_ET_group_or_var (numeric "
+            "cmax 0, one file whose names carry only c=0: relevant_keys_with_c is stale or unbound) are outside "
+            "`Ordinary`. OBSERVATION (not a Cactus layout): a variable literally named `T1::V1` in thorn A next to "
+            "T1::V1 makes the real loop append for ever (loop_without_end_witness; the real call does not return). KNOWN FINDINGS of the multi-thorn branch, rebuilt and replayed on the real "
             "code on every run (not repaired: the in-place rewrite of the request list spans four functions): with "
             "the default split_per_it=True a variable stored by two thorns of one file comes back as None "
             "(two_thorns_default_path_none); two group files ml_bssn-ml_ham / ml_admconstraints-ml_ham are read as "
